@@ -120,7 +120,12 @@ class C10(Prop):
     theorems = ["isPerm_mem", "transposeBy_dims", "transposeBy_axes", "transposeBy_at", "transposeBy_attrs",
                 "transpose_inv_axes", "transpose_inv_at", "newaxis_at", "squeezeDim_at", "repeatDim_at", "rollPerm_isPerm", "transposeBy_spec", "transpose_names_spec", "transpose_keys_spec", "transpose_keys_interchangeable", "swapaxes_keys_interchangeable", "transpose_default_spec",
                 "swapaxes_spec", "rollaxis_spec", "rollaxis_lands_before", "squeeze_axis_spec", "squeeze_all_spec", "repeat_spec",
-                "newaxis_spec", "newaxis_values_spec", "broadcast_spec", "sameByName_unique", "sameOn_unique"]
+                "newaxis_spec", "newaxis_values_spec", "broadcast_spec", "sameByName_unique", "sameOn_unique",
+                "keyGood_resolves", "pos_out_of_range_not_good", "transpose_first_bad_key", "transpose_pos_out_of_range",
+                "transpose_ok_iff", "swapaxes_pos_out_of_range", "swapaxes_ok_iff", "rollaxis_pos_out_of_range",
+                "rollaxis_start_out_of_range", "rollaxis_ok_iff", "squeeze_pos_out_of_range", "repeat_pos_out_of_range",
+                "squeeze_ok_iff", "repeat_ok_iff", "resolves_spellings", "neg_position_interchangeable",
+                "transpose_neg_position_interchangeable", "squeeze_ok_iff_counterexample"]
     rule = ("arrays of rank 0-4 whose axes have pairwise different lengths and mixed kinds (a share with singleton "
             "axes, a share with one zero-length axis), carrying array- and axis-level metadata; chains of 1-4 steps among "
             "transpose (list / tuple / varargs / set, names / positions / negative positions, default, .T), swapaxes "
@@ -131,9 +136,17 @@ class C10(Prop):
             "given to repeat / newaxis, carry metadata of their own and every result axis' metadata is compared with the model) and broadcast_arrays / align_dims (a share with a label-less dimension); "
             "the inverse-permutation round trip; requests that name no permutation / pair of the dimensions (too few, "
             "a dimension twice, an unknown name, an integer position out of range) must be refused. "
+            "Integer positions outside [-ndim, ndim) are compared with the model on the error class for every function that "
+            "takes a dimension position (transpose, swapaxes, rollaxis, squeeze, repeat; rank 0-3 systematically: the bad "
+            "position first / last / alone / extra, among names and negative positions, next to an unknown name on either "
+            "side - the first bad key decides between ValueError and IndexError -, two positions out of range, the boundary "
+            "positions -ndim and ndim-1 accepted; rollaxis start outside [-ndim, ndim] refused with a good, an unknown and "
+            "an out-of-range axis, start = +-ndim accepted) and in the random chains. "
             "Non-trivial = rank >= 2 or a dimension added/removed; distinct = canonical JSON")
     assumptions = ["comma-free dimension names; labels unique",
-                   "integer positions out of range are decided by the oracle alone (the Lean mirror does not validate them)",
+                   "NumPy's AxisError (np.rollaxis start out of range) is read as an IndexError, as the harness' exception map does "
+                   "(it is a subclass of ValueError as well)",
+                   "newaxis(pos=) is an insertion position, not a dimension position: positions beyond [-ndim-1, ndim] are not generated",
                    "transpose(set): any order of the dimensions is accepted by the oracle; the model is asked about the order "
                    "in which the running process iterates over the set"]
 
@@ -168,6 +181,8 @@ class C10(Prop):
                 fn = "transpose_bad"
         if fn == "swapaxes" and allow_invalid and rng.random() < 0.12:
             fn = "swapaxes_bad"
+        if fn in ("rollaxis", "squeeze", "repeat") and allow_invalid and rng.random() < 0.10:
+            fn = fn + "_bad"
         if fn == "swapaxes_same":
             # swapaxes(i, i), the two operands spelled independently: nothing moves
             i = rng.randrange(n)
@@ -184,8 +199,10 @@ class C10(Prop):
             perm = list(range(n))
             rng.shuffle(perm)
             keys = [sim.key(rng, p) for p in perm]
-            kinds = ["unknown", "range"] + (["partial", "repeated"] if n >= 2 else ["extra"])
+            kinds = ["unknown", "range", "range", "two"] + (["partial", "repeated", "range+partial"] if n >= 2 else ["extra"])
             kind = rng.choice(kinds)
+            bad_pos = lambda: ["pos", rng.choice([n, n + 1, -n - 1, -n - 2])]
+            bad_name = lambda: ["name", rng.choice([d for d in gen.DIMS + ["t", "u", "q"] if d not in sim.dims])]
             if kind == "partial":
                 keys = keys[:rng.randint(1, n - 1)]
             elif kind == "repeated":
@@ -194,18 +211,54 @@ class C10(Prop):
             elif kind == "extra":
                 keys.append(sim.key(rng, perm[0]))
             elif kind == "unknown":
-                keys[rng.randrange(n)] = ["name", rng.choice([d for d in gen.DIMS + ["t", "u", "q"] if d not in sim.dims])]
+                keys[rng.randrange(n)] = bad_name()
+            elif kind == "range":
+                # a position outside [-ndim, ndim): anywhere, first or last key (the other keys by name / position, mixed)
+                keys[rng.choice([0, n - 1, rng.randrange(n)])] = bad_pos()
+            elif kind == "two":
+                # two bad keys of different kinds (the first one decides the error class), or two positions out of range;
+                # on a 1-d array the second bad key is an extra one
+                if n == 1:
+                    keys.append(keys[0])
+                i, j = rng.sample(range(len(keys)), 2)
+                keys[i] = bad_pos()
+                keys[j] = bad_name() if rng.random() < 0.75 else bad_pos()
             else:
-                keys[rng.randrange(n)] = ["pos", rng.choice([n, n + 1, -n - 1, -n - 2])]
+                # too few keys AND one of them out of range (the position is refused first)
+                keys = keys[:rng.randint(1, n - 1)]
+                keys[rng.randrange(len(keys))] = bad_pos()
             return {"fn": "transpose", "dims": keys, "how": rng.choice(["list", "tuple", "varargs"]), "invalid": kind, "_err": True}
         if fn == "swapaxes_bad":
             i = rng.randrange(n)
-            kind = rng.choice(["unknown", "range"])
-            other = ["name", rng.choice([d for d in gen.DIMS + ["t", "u", "q"] if d not in sim.dims])] if kind == "unknown" \
-                else ["pos", rng.choice([n, n + 1, -n - 1, -n - 2])]
-            ks = [sim.key(rng, i), other]
+            kind = rng.choice(["unknown", "range", "range", "two"])
+            bad_pos = lambda: ["pos", rng.choice([n, n + 1, -n - 1, -n - 2])]
+            bad_name = lambda: ["name", rng.choice([d for d in gen.DIMS + ["t", "u", "q"] if d not in sim.dims])]
+            ks = [sim.key(rng, i), bad_name() if kind == "unknown" else bad_pos()]
+            if kind == "two":
+                ks[0] = bad_name() if rng.random() < 0.75 else bad_pos()
             rng.shuffle(ks)
             return {"fn": "swapaxes", "a1": ks[0], "a2": ks[1], "invalid": kind, "_err": True}
+        if fn in ("rollaxis_bad", "squeeze_bad", "repeat_bad"):
+            # the dimension given by a position outside [-ndim, ndim) or by an unknown name; rollaxis: also a start
+            # outside [-ndim, ndim] (with a good or a bad axis: the axis is looked at first)
+            kind = rng.choice(["unknown", "range", "range"] + (["start", "start", "range+start", "unknown+start"] if fn == "rollaxis_bad" else []))
+            if kind.startswith("range"):
+                key = ["pos", rng.choice([n, n + 1, -n - 1, -n - 2])]
+            elif kind.startswith("unknown"):
+                key = ["name", rng.choice([d for d in gen.DIMS + ["t", "u", "q"] if d not in sim.dims])]
+            else:
+                key = sim.key(rng, rng.randrange(n))
+            if fn == "rollaxis_bad":
+                start = rng.choice([n + 1, n + 2, -n - 1, -n - 2]) if kind.endswith("start") else rng.randint(-n, n)
+                return {"fn": "rollaxis", "axis": key, "start": start, "invalid": kind, "_err": True}
+            if fn == "squeeze_bad":
+                return {"fn": "squeeze", "axis": key, "invalid": kind, "_err": True}
+            v = gen.clean(gen.rand_axis(rng, "v", n=rng.randint(1, 3)))
+            if rng.random() < 0.3:
+                cnt = rng.choice([1, 2, 3])
+                v = {"name": "v", "kind": "i", "labels": [["n", k, 1] for k in range(cnt)]}
+                return {"fn": "repeat", "values": v, "axis": key, "count": cnt, "kwaxis": rng.random() < 0.7, "invalid": kind, "_err": True}
+            return {"fn": "repeat", "values": v, "axis": key, "as_axis": False, "invalid": kind, "_err": True}
         if fn == "transpose":
             r = rng.random()
             if r < 0.15:
@@ -337,8 +390,6 @@ class C10(Prop):
         c = {"op": "chain", "array": arr, "steps": steps}
         if steps[-1].get("invalid"):
             c["invalid"] = steps[-1]["invalid"]
-            if c["invalid"] == "range":
-                c["nolean"] = True      # the mirror does not validate integer positions (Python: IndexError)
         if steps[-1].get("_last"):
             # a set: the dimensions in any order, each with its own labels
             c["_expect_set"] = {a["name"]: list(a["labels"]) for a in sim.axes}
@@ -398,14 +449,21 @@ class C10(Prop):
                 for k in range(3):
                     yield {"op": "chain", "array": arr, "steps": [{"fn": "swapaxes", "a1": spell(i, k), "a2": spell(i, k + 1), "same": True}],
                            "_expect": expect}
-                # positions out of range, unknown names
+                # positions out of range (alone, among names / positions / negative positions), unknown names
                 for badv in (rank, rank + 1, -rank - 1):
                     keys = [["pos", j] for j in range(rank)]
                     keys[i] = ["pos", badv]
-                    yield {"op": "chain", "array": arr, "invalid": "range", "nolean": True,
+                    yield {"op": "chain", "array": arr, "invalid": "range",
                            "steps": [{"fn": "transpose", "dims": keys, "how": "list", "invalid": "range", "_err": True}]}
-                    yield {"op": "chain", "array": arr, "invalid": "range", "nolean": True,
-                           "steps": [{"fn": "swapaxes", "a1": spell(i, badv), "a2": ["pos", badv], "invalid": "range", "_err": True}]}
+                    keys = [spell(j, j + i + badv) for j in range(rank)]
+                    keys[i] = ["pos", badv]
+                    yield {"op": "chain", "array": arr, "invalid": "range",
+                           "steps": [{"fn": "transpose", "dims": keys, "how": "varargs", "invalid": "range", "_err": True}]}
+                    for k in range(3):
+                        yield {"op": "chain", "array": arr, "invalid": "range",
+                               "steps": [{"fn": "swapaxes", "a1": spell(i, k), "a2": ["pos", badv], "invalid": "range", "_err": True}]}
+                        yield {"op": "chain", "array": arr, "invalid": "range",
+                               "steps": [{"fn": "swapaxes", "a1": ["pos", badv], "a2": spell(i, k), "invalid": "range", "_err": True}]}
                 keys = [["name", d] for d in names]
                 keys[i] = ["name", "q"]
                 yield {"op": "chain", "array": arr, "invalid": "unknown",
@@ -431,8 +489,71 @@ class C10(Prop):
                     yield {"op": "chain", "array": arr1, "_expect": {"dims": names, "labels": labels},
                            "steps": [{"fn": "repeat", "values": v, "axis": spell(i, cnt), "count": cnt, "kwaxis": cnt != 2}]}
 
+    def systematic_positions(self):
+        """every function that takes a dimension position, with positions just outside [-ndim, ndim) (and the boundary
+        positions -ndim, ndim-1 just inside), alone and next to a second bad key of another kind, on rank 0-3"""
+        def fixed(rank, single=None):
+            return {"axes": [{"name": gen.DIMS[i], "kind": ["i", "O", "f"][i],
+                              "labels": [gen.enc(v) for v in ([10, 20], ["a", "b", "c"], [0.5, 1.5, 2.5, 3.5])[i]][:1 if single == i else None]}
+                             for i in range(rank)], "vkind": "f", "attrs_py": {"title": "T"}}
+        Q = ["name", "q"]
+        vals = {"name": "v", "kind": "i", "labels": [["n", 7, 1], ["n", 8, 1]]}
+
+        def case(arr, st, invalid):
+            st = dict(st)
+            if invalid:
+                st.update(invalid=invalid, _err=True)
+                return {"op": "chain", "array": arr, "invalid": invalid, "steps": [st]}
+            return {"op": "chain", "array": arr, "steps": [st]}
+        for rank in (0, 1, 2, 3):
+            arr = fixed(rank)
+            names = [a["name"] for a in arr["axes"]]
+            good = [["pos", j] for j in range(rank)]
+            bads = (rank, rank + 1, -rank - 1, -rank - 2)
+            for b in bads:
+                B = ["pos", b]
+                # transpose: the bad position first / last / extra / alone, with an unknown name before / after it
+                lists = [[B], good + [B], [B] + good, [B, Q], [Q, B], good + [Q, B], good + [B, Q], [B, ["pos", -b]]]
+                if rank >= 1:
+                    lists += [[B] + good[1:], good[:-1] + [B], [Q] + good[1:-1] + [B], [B] + good[1:-1] + [Q],
+                              [["name", names[0]]] * (rank - 1) + [B]]
+                for how, ks in zip(itertools.cycle(["list", "tuple", "varargs"]), lists):
+                    yield case(arr, {"fn": "transpose", "dims": ks, "how": how}, "two" if Q in ks else "range")
+                # swapaxes: both operands bad
+                for k1, k2 in ((B, B), (B, ["pos", -b if not -rank <= -b < rank else b + 1]), (B, Q), (Q, B)):
+                    yield case(arr, {"fn": "swapaxes", "a1": k1, "a2": k2}, "two" if Q in (k1, k2) else "range")
+                # rollaxis: bad axis with a good / a bad start
+                for start in (0, rank, -rank, rank + 1, -rank - 1):
+                    yield case(arr, {"fn": "rollaxis", "axis": B, "start": start}, "range" if -rank <= start <= rank else "range+start")
+                yield case(arr, {"fn": "squeeze", "axis": B}, "range")
+                yield case(arr, {"fn": "repeat", "values": vals, "axis": B, "as_axis": False}, "range")
+                yield case(arr, {"fn": "repeat", "values": dict(vals, labels=[["n", k, 1] for k in range(2)]), "axis": B, "count": 2, "kwaxis": b > 0}, "range")
+            for start in (0, 1, -1, rank + 1):
+                yield case(arr, {"fn": "rollaxis", "axis": Q, "start": start}, "unknown" if -rank <= start <= rank else "unknown+start")
+            yield case(arr, {"fn": "squeeze", "axis": Q}, "unknown")
+            yield case(arr, {"fn": "repeat", "values": vals, "axis": Q, "as_axis": False}, "unknown")
+            for i in range(rank):
+                for k in range(3):
+                    key = [["name", names[i]], ["pos", i], ["pos", i - rank]][k]
+                    # rollaxis: a good axis with a start outside [-ndim, ndim] (refused) and on its boundary (accepted)
+                    for start in (rank + 1, rank + 2, -rank - 1, -rank - 2):
+                        yield case(arr, {"fn": "rollaxis", "axis": key, "start": start}, "start")
+                    for start in (rank, -rank):
+                        yield case(arr, {"fn": "rollaxis", "axis": key, "start": start}, None)
+                    # squeeze / repeat of the singleton dimension i by every spelling incl. the boundary positions
+                    arr1 = fixed(rank, single=i)
+                    yield case(arr1, {"fn": "squeeze", "axis": key}, None)
+                    yield case(arr1, {"fn": "repeat", "values": dict(vals, name=names[i]), "axis": key, "as_axis": False}, None)
+            # the boundary positions just inside, for transpose and swapaxes
+            if rank >= 1:
+                yield case(arr, {"fn": "transpose", "dims": [["pos", -rank]] + good[1:], "how": "list"}, None)
+                yield case(arr, {"fn": "transpose", "dims": good[:-1] + [["pos", -1]], "how": "tuple"}, None)
+                yield case(arr, {"fn": "swapaxes", "a1": ["pos", -rank], "a2": ["pos", rank - 1]}, None)
+
     def gen(self, rng, tier):
         for c in self.systematic():
+            yield c
+        for c in self.systematic_positions():
             yield c
         n = 900 if tier == "quick" else 25000
         for _ in range(n):
@@ -480,8 +601,6 @@ class C10(Prop):
         toks = core.AttrTokens()
         if c["op"] == "multi":
             return {"op": "multi", "fn": c["fn"], "arrays": [core.lean_array(gen.clean(a), toks) for a in c["arrays"]]}
-        if c.get("nolean"):
-            return dict(DUMMY)
         steps = []
         for st in c["steps"]:
             ls = lean_step10(st, toks)
@@ -518,15 +637,12 @@ class C10(Prop):
                     if len(shapes) > 1 or len(dims) > 1:
                         prop_bad.append("broadcast:not_same_shape")
         else:
-            if c.get("nolean"):
-                lean = {"err": "unmodelled"}
-            else:
-                if "ok" in lean:
-                    a = core.build_array(c["array"], 0)
-                    lo = core.lean_obs_to_canon(lean["ok"], core.CellEnv([a.values])); lo["scalar"] = False
-                    lean = {"ok": lo}
-                d = core.diff_obs(io, lean)
-                bad += [("M." + x if x == "errclass" else x) for x in d]
+            if "ok" in lean:
+                a = core.build_array(c["array"], 0)
+                lo = core.lean_obs_to_canon(lean["ok"], core.CellEnv([a.values])); lo["scalar"] = False
+                lean = {"ok": lo}
+            d = core.diff_obs(io, lean)
+            bad += [("M." + x if x == "errclass" else x) for x in d]
             if c.get("invalid"):
                 # the request names no permutation / pair of the array's dimensions: there is no 'requested arrangement'
                 # a result could have, the call has to be refused
@@ -585,7 +701,9 @@ class C10(Prop):
                 if s["fn"] == "swapaxes" and s.get("same"):
                     f["swapaxes.same"] = 1
             f["invalid"] = c.get("invalid", "no")
-            f["model"] = "oracle-only" if c.get("nolean") else "lean"
+            f["model"] = "lean"
+            if c.get("invalid"):
+                f["invalid.fn"] = c["steps"][-1]["fn"] + ":" + c["invalid"]
             f["zero_length_axis"] = any(len(a["labels"]) == 0 for a in c["array"]["axes"])
         else:
             f["fn:" + c["fn"]] = 1
